@@ -101,6 +101,27 @@ StrOK(r) ==
     /\ r.f1 = r.n \div 2 /\ r.f2 = r.n \div 2 + 1 /\ r.f3 = -1
     /\ r.size3 = r.size2 - r.n \div 2 /\ r.subsize = r.size3 - 1 /\ r.cmp0 = 0 /\ r.cap >= r.size3
 
+\* C05 with 7*10^4 owners of one allocation: every owner sees the same memory, a weak lock finds an owner as long as
+\* there is one, nobody is unique, the clear callback runs when the last owner goes and only then
+RefsOK(r) ==
+    /\ r.out = "ok" /\ r.sameget
+    /\ r.lockmid = 1 /\ r.uniqmid = 0 /\ r.clrmid = 0
+    /\ r.locklast = 1 /\ r.uniqlast = 0 /\ r.clrlast = 0
+    /\ r.clrend = 1 /\ r.lockend = 0
+\* C14 with 7*10^4 views of one external buffer: release refuses (and changes nothing) while other views exist,
+\* every index stays inside the buffer, the sole remaining user gets the buffer back
+ViewsOK(r) ==
+    /\ r.out = "ok" /\ r.early = 0 /\ r.size0 = 64 /\ r.inside /\ r.late = 1 /\ r.sizeend = 0
+\* C03 / C04 with one chain of 5*10^5 elements under a single key, relocated by a grow and a shrink
+HashDupOK(r) ==
+    /\ r.out = "ok" /\ r.priv
+    /\ r.size = r.n + 1000 /\ r.found5 = 1 /\ r.foundlast = 1
+    /\ r.visited1 = r.size /\ r.once1
+    /\ r.erased > 0 /\ r.size2 = r.size - r.erased /\ r.visited = r.size2 /\ r.once
+\* C09 beyond 2^32 elements: exactly the elements leaving are destroyed (skipped where the address space is not to be had)
+VecHugeOK(r) ==
+    r.out = "ok" /\ (r.skipped \/ (r.d1 = 5 /\ r.size1 = 5 /\ r.d2 = 3 /\ r.size2 = 2 /\ r.bad = 0))
+
 BigOK(r) == CASE r.op = "heapdrain" -> HeapOK(r)
               [] r.op \in {"slistsort", "dlistsort"} -> ListOK(r)
               [] r.op = "rbbig" -> TreeOK(r, TRUE)
@@ -110,6 +131,10 @@ BigOK(r) == CASE r.op = "heapdrain" -> HeapOK(r)
               [] r.op = "sortbig" -> SortOK(r)
               [] r.op = "vecbig" -> VecOK(r)
               [] r.op = "strbig" -> StrOK(r)
+              [] r.op = "refsbig" -> RefsOK(r)
+              [] r.op = "viewsbig" -> ViewsOK(r)
+              [] r.op = "hashdup" -> HashDupOK(r)
+              [] r.op = "vechuge" -> VecHugeOK(r)
               [] OTHER -> FALSE
 VARIABLE i
 TInit == i = 1
